@@ -56,3 +56,8 @@ void h_localIjkToCell_res(void) { H3Index origin = S_SETRES(nondet_u64(), LRES);
 void h_h3ToFaceIjk(void) { H3Index h = nondet_u64(); FaceIJK *fijk; H3Error e = _h3ToFaceIjk(h, fijk); __CPROVER_assert(0, "canary _h3ToFaceIjk"); }
 void h_cellToLatLng(void) { H3Index h = nondet_u64(); LatLng *g; H3Error e = cellToLatLng(h, g); __CPROVER_assert(0, "canary cellToLatLng"); }
 void h_cellToBoundary(void) { H3Index h = nondet_u64(); CellBoundary *cb; H3Error e = cellToBoundary(h, cb); __CPROVER_assert(0, "canary cellToBoundary"); }
+#ifdef FRES
+/* one job per resolution (the 4-bit field is ASSIGNED, so symex folds the digit shifts and unrolls the digit loop exactly FRES times); the
+ * sixteen values are the whole domain of the field */
+void h_h3ToFaceIjk_res(void) { H3Index h = S_SETRES(nondet_u64(), FRES); FaceIJK *fijk; H3Error e = _h3ToFaceIjk(h, fijk); __CPROVER_assert(0, "canary _h3ToFaceIjk res"); }
+#endif
